@@ -72,7 +72,10 @@ def parse_vc(ident, text):
             continue
         if not ln[0].isspace():
             flush()
-            key, _, val = ln.partition(":")
+            if ln.startswith("ghost ") and ln.rstrip().endswith(":"):
+                key, val = ln.rstrip()[:-1], ""
+            else:
+                key, _, val = ln.partition(":")
             key, val = key.strip(), val.strip()
             base_indent = None
             if key == "fn":
